@@ -51,7 +51,18 @@ def models_under_test():
 
 def rand_inputs(rng, name, n):
     if name.startswith("CartesianToSpherical") or name == "ToDirectionCosines":
-        return [np.array([rng.uniform(-2, 2) for _ in range(n)]) for _ in range(3)]
+        arrs = [np.array([rng.uniform(-2, 2) for _ in range(n)]) for _ in range(3)]
+        if name.startswith("CartesianToSpherical"):
+            # special directions inside a batch: exact poles (x = y = 0, either sign of zero), points on the axes / wrap boundary
+            for i in range(n):
+                r = rng.random()
+                if r < 0.15:
+                    arrs[0][i], arrs[1][i] = rng.choice([0.0, -0.0]), rng.choice([0.0, -0.0])
+                elif r < 0.22:
+                    arrs[1][i] = rng.choice([0.0, -0.0])          # on the lon = 0 / 180 meridian
+                elif r < 0.27:
+                    arrs[0][i] = 0.0                                # lon = +-90
+        return arrs
     if name == "FromDirectionCosines":
         return [np.array([rng.uniform(-1, 1) for _ in range(n)]) for _ in range(4)]
     if name == "SphericalToCartesian":
